@@ -83,6 +83,49 @@ theorem input_after_own_response (cfg : Cfg) (complete : List (Bytes → Bool)) 
     exact ⟨p, hp, hw p hp _ hpw⟩
   · exact hm
 
+/-! ## order of writes -/
+
+theorem seg_writes (g : Seg) :
+    writesOf g.trace = g.input :: (match g.ret with | none => [] | some r => [r]) := by
+  cases hr : g.ret <;> simp [Seg.trace, hr, writesOf]
+
+theorem loop_writes (cfg : Cfg) (complete : List (Bytes → Bool)) (dev : Dev σ)
+    (evs : List Event) (s : St σ) (b : Bytes) :
+    writesOf (loop cfg complete dev evs s b).trace <+: evs.flatMap fun e => [e.input, cfg.ret] := by
+  induction evs generalizing s b with
+  | nil => simp [loop, Run.trace, writesOf]
+  | cons e es ih =>
+    have hi := step_input cfg complete dev es.isEmpty e s
+    have hone : ∀ l : List Bytes,
+        writesOf (stepEvent cfg complete dev es.isEmpty e s).seg.trace <+: e.input :: cfg.ret :: l := by
+      intro l
+      rw [seg_writes, hi]
+      rcases step_ret_cases cfg complete dev es.isEmpty e s with hr | hr <;> rw [hr]
+      · exact ⟨cfg.ret :: l, rfl⟩
+      · exact ⟨l, rfl⟩
+    simp only [loop, Run.trace, List.flatMap_cons]
+    split
+    · simpa using hone _
+    · simpa using hone _
+    · rename_i hc
+      have hok := step_ok cfg complete dev es.isEmpty e s (by rw [hc]; simp)
+      simp only [List.flatMap_cons, writesOf_append, seg_writes, hi, hok.1, List.cons_append,
+        List.nil_append]
+      have := ih (stepEvent cfg complete dev es.isEmpty e s).st
+        (b ++ (stepEvent cfg complete dev es.isEmpty e s).b)
+      simp only [Run.trace] at this
+      obtain ⟨t, ht⟩ := this
+      exact ⟨t, by simp [← ht]⟩
+
+/-- What is written, in order, is a prefix of `input₁ ⏎ input₂ ⏎ …`: inputs are never reordered,
+repeated or skipped, and each return follows its own input. -/
+theorem writes_follow_script (cfg : Cfg) (complete : List (Bytes → Bool)) (dev : Dev σ)
+    (evs : List Event) (s : St σ) :
+    writesOf (sendInteractive cfg complete dev evs s).trace <+:
+      evs.flatMap fun e => [e.input, cfg.ret] :=
+  loop_writes cfg complete dev evs s []
+
+
 /-! ## echo handling -/
 
 /-- For every processed event: a hidden input, or one without expected response, is followed by
@@ -171,5 +214,127 @@ theorem result_is_whole_dialogue (cfg : Cfg) (complete : List (Bytes → Bool)) 
   simp only [List.nil_append] at this
   rw [← hx, this]
   rfl
+
+/-! ## privilege escalation -/
+
+/-- shape of an authenticated escalation: one or two segments -/
+theorem escalate_segs (cfg : Cfg) (prev target : Level) (secret : Bytes) (dev : Dev σ) (s : St σ)
+    (ha : target.escalateAuth = true) (hs : secret ≠ []) :
+    let r := escalate cfg prev target secret dev s
+    (∃ g0, r.segs = [g0] ∧ g0.input = target.escalate ∧ g0.hidden = false) ∨
+    (∃ g0 g1, r.segs = [g0, g1] ∧ g0.input = target.escalate ∧ g0.hidden = false ∧
+      g1.input = secret ∧ g1.hidden = true ∧ g1.echo = [] ∧
+      g0.ret = some cfg.ret ∧
+      RespMatched (escCfg cfg) (escalateComplete prev target)
+        { input := target.escalate, resp := target.escalatePrompt, hidden := false }
+        g0.resp.flatten ∧
+      ¬ Completed (escalateComplete prev target) g0.resp.flatten) := by
+  intro r
+  have hr : r = sendInteractive (escCfg cfg) (escalateComplete prev target) dev
+      (escalateEvents target secret) s := by
+    simp only [r, escalate, ha, Bool.not_true, Bool.false_or]
+    have : secret.isEmpty = false := by cases secret <;> simp_all
+    simp [this]
+  have hlen : r.segs.length ≤ 2 := by
+    rw [hr]; exact loop_segs_length _ _ _ (escalateEvents target secret) _ _
+  have hne : r.segs ≠ [] := by
+    rw [hr]; exact loop_segs_ne_nil _ _ _ _ _ _ _
+  match hsegs : r.segs with
+  | [] => exact absurd hsegs hne
+  | [g0] =>
+    left
+    rw [hr] at hsegs
+    obtain ⟨e, he, hi, hh, _⟩ := hidden_not_awaited _ _ dev _ s [] g0 [] (by simpa using hsegs)
+    simp only [escalateEvents, List.length_nil, List.getElem?_cons_zero, Option.some.injEq] at he
+    subst he
+    exact ⟨g0, rfl, hi, hh⟩
+  | [g0, g1] =>
+    right
+    rw [hr] at hsegs
+    obtain ⟨e, he, hi, hh, _⟩ := hidden_not_awaited _ _ dev _ s [] g0 [g1] (by simpa using hsegs)
+    obtain ⟨e1, he1, hi1, hh1, hu1, _⟩ :=
+      hidden_not_awaited _ _ dev _ s [g0] g1 [] (by simpa using hsegs)
+    obtain ⟨e', e1', he', _, _, _, _, hret, hm, hn⟩ :=
+      input_after_expected_response _ _ dev _ s [] g0 g1 [] (by simpa using hsegs)
+    simp only [escalateEvents, List.length_nil, List.getElem?_cons_zero, Option.some.injEq] at he he'
+    simp only [escalateEvents, List.length_cons, List.length_nil, Nat.zero_add,
+      List.getElem?_cons_succ, List.getElem?_cons_zero, Option.some.injEq] at he1
+    subst he he' he1
+    exact ⟨g0, g1, rfl, hi, hh, hi1, hh1, (hu1 (Or.inl rfl)).1, hret, hm, hn⟩
+  | _ :: _ :: _ :: _ => rw [hsegs] at hlen; simp at hlen
+
+/-- THE SECRET CLAUSE. In every trace of `escalate` — any device, any segmentation, any queue
+content — a redacted write (the only one is the secondary secret) occurs only in this position:
+escalate command, deliveries, return, deliveries `D`, **secret**; where `D`, the bytes delivered
+since the escalate command's return, matched (on the search window) the escalate prompt or a level
+pattern, and neither the previous nor the target level pattern matches `D`. -/
+theorem secret_only_after_password_prompt (cfg : Cfg) (prev target : Level) (secret : Bytes)
+    (dev : Dev σ) (s : St σ) (pre post : List Ev) (x : Bytes)
+    (h : (escalate cfg prev target secret dev s).trace = pre ++ Ev.write x true :: post) :
+    target.escalateAuth = true ∧ secret ≠ [] ∧ x = secret ∧
+    ∃ E D, pre = Ev.write target.escalate false :: (dels E ++ Ev.write cfg.ret false :: dels D) ∧
+      RespMatched (escCfg cfg) (escalateComplete prev target)
+        { input := target.escalate, resp := target.escalatePrompt, hidden := false } D.flatten ∧
+      prev.pattern D.flatten = false ∧ target.pattern D.flatten = false := by
+  have hmem : Ev.write x true ∈ (escalate cfg prev target secret dev s).trace := by
+    rw [h]; simp
+  by_cases hauth : target.escalateAuth = true ∧ secret ≠ []
+  · obtain ⟨ha, hs⟩ := hauth
+    refine ⟨ha, hs, ?_⟩
+    rcases escalate_segs cfg prev target secret dev s ha hs with
+      ⟨g0, hsegs, _, hh⟩ | ⟨g0, g1, hsegs, hi0, hh0, hi1, hh1, he1, hret, hm, hn⟩
+    · exfalso
+      simp only [Run.trace, hsegs, List.flatMap_cons, List.flatMap_nil, List.append_nil] at hmem
+      have := isRed_seg_visible g0 hh _ hmem
+      simp [isRed] at this
+    · simp only [Run.trace, hsegs, List.flatMap_cons, List.flatMap_nil, List.append_nil] at h
+      obtain ⟨t, ht, htn⟩ := isRed_seg_tail g1
+      rw [ht, hi1, hh1] at h
+      obtain ⟨e1, e2, _⟩ := split_unique isRed pre post g0.trace t _ _ h.symm rfl
+        (isRed_seg_visible g0 hh0) htn
+      simp only [Ev.write.injEq, and_true] at e2
+      refine ⟨e2, g0.echo, g0.resp, ?_, hm, ?_⟩
+      · rw [e1]; simp [Seg.trace, hret, hi0, hh0]
+      · simpa [Completed, escalateComplete] using hn
+  · exfalso
+    have hcond : (!target.escalateAuth || secret.isEmpty) = true := by
+      by_cases ha : target.escalateAuth = true
+      · have : secret = [] := by
+          by_cases hs : secret = []
+          · exact hs
+          · exact absurd ⟨ha, hs⟩ hauth
+        simp [this]
+      · simp [ha]
+    simp only [escalate, hcond, if_true] at hmem
+    obtain ⟨g, hsegs, _, hh, _⟩ :=
+      plain_return_after_echo (escCfg cfg) false [] dev s target.escalate
+    simp only [Run.trace, hsegs, List.flatMap_cons, List.flatMap_nil, List.append_nil] at hmem
+    have := isRed_seg_visible g hh _ hmem
+    simp [isRed] at this
+
+/-- If what the device shows after the escalate command is the target prompt or the previous
+prompt (it granted or refused the level without asking) the secret is never written: the trace has
+no redacted write at all. -/
+theorem secret_never_at_level_prompt (cfg : Cfg) (prev target : Level) (secret : Bytes)
+    (dev : Dev σ) (s : St σ) (g0 : Seg) (rest : List Seg)
+    (hsegs : (escalate cfg prev target secret dev s).segs = g0 :: rest)
+    (hshown : prev.pattern g0.resp.flatten = true ∨ target.pattern g0.resp.flatten = true) :
+    ∀ x, Ev.write x true ∉ (escalate cfg prev target secret dev s).trace := by
+  intro x hmem
+  obtain ⟨pre, post, hsplit⟩ := List.append_of_mem hmem
+  obtain ⟨ha, hs, _⟩ :=
+    secret_only_after_password_prompt cfg prev target secret dev s pre post x hsplit
+  rcases escalate_segs cfg prev target secret dev s ha hs with
+    ⟨g0', hsegs', _, hh⟩ | ⟨g0', g1, hsegs', _, _, _, _, _, _, _, hn⟩
+  · simp only [Run.trace, hsegs', List.flatMap_cons, List.flatMap_nil, List.append_nil] at hmem
+    have := isRed_seg_visible g0' hh _ hmem
+    simp [isRed] at this
+  · rw [hsegs'] at hsegs
+    simp only [List.cons.injEq] at hsegs
+    rw [hsegs.1] at hn
+    apply hn
+    simp only [Completed, escalateComplete, List.any_cons, List.any_nil, Bool.or_false,
+      Bool.or_eq_true]
+    exact hshown
 
 end Scrapli.Inter.C12
